@@ -3,6 +3,7 @@
   occurrence of a key wins.  (lookup theorems: see tools/agent_briefs/W3-SMALL.md)
 -/
 import TT.Options
+import TT.Lemmas.GramOut
 namespace TT.Props.C03Options
 open TT
 
@@ -15,5 +16,211 @@ theorem parseOption_flag (k : Str) (hk : k.contains ':' = false) : parseOption k
 
 example : optionsDict ["quiet".toList, "gf_separator:#".toList, "brackets_firstid:12".toList, "gf_separator:=".toList]
     = [("quiet".toList, .flag), ("gf_separator".toList, .str ['=']), ("brackets_firstid".toList, .int 12)] := by decide
+
+/-! ### helpers: the overwrite map, `find?`, keys -/
+
+/-- the overwrite used by `dictSet` when the key is present -/
+private def ow (k : Str) (v : OptVal) : Str × OptVal → Str × OptVal :=
+  fun (a, b) => if a == k then (a, v) else (a, b)
+
+private theorem ow_fst (k : Str) (v : OptVal) (p : Str × OptVal) : (ow k v p).1 = p.1 := by
+  obtain ⟨a, b⟩ := p
+  simp only [ow]; split <;> rfl
+
+private theorem dictSet_eq (d : List (Str × OptVal)) (k : Str) (v : OptVal) :
+    dictSet d k v = if d.any (·.1 == k) then d.map (ow k v) else d ++ [(k, v)] := rfl
+
+private theorem lookup_map_self (k : Str) (v : OptVal) :
+    ∀ d : List (Str × OptVal), d.any (·.1 == k) = true → optLookup (d.map (ow k v)) k = some v
+  | [], h => by simp at h
+  | (a, b) :: r, h => by
+    by_cases e : a = k
+    · subst e; simp [optLookup, ow]
+    · have hr : r.any (·.1 == k) = true := by simpa [e] using h
+      have ih := lookup_map_self k v r hr
+      simp only [optLookup] at ih
+      simp only [optLookup, List.map_cons, ow, beq_iff_eq, e, if_false]
+      rw [List.find?_cons_of_neg (by simpa using e)]
+      exact ih
+
+private theorem lookup_map_other (k k' : Str) (v : OptVal) (h : k' ≠ k) :
+    ∀ d : List (Str × OptVal), optLookup (d.map (ow k v)) k' = optLookup d k'
+  | [] => rfl
+  | (a, b) :: r => by
+    have ih := lookup_map_other k k' v h r
+    simp only [optLookup] at ih
+    by_cases e : a = k'
+    · subst e
+      by_cases e2 : a = k
+      · exact absurd e2 h
+      · simp [optLookup, ow, e2]
+    · have e' : ((a, b).1 == k') = false := by simpa using e
+      have e'' : ((ow k v (a, b)).1 == k') = false := by rw [ow_fst]; exact e'
+      simp only [optLookup, List.map_cons]
+      rw [List.find?_cons_of_neg (by simpa using e''), List.find?_cons_of_neg (by simpa using e')]
+      exact ih
+
+private theorem find_none_of_any_false (k : Str) (d : List (Str × OptVal)) (h : ¬ d.any (·.1 == k) = true) :
+    d.find? (·.1 == k) = none := by
+  rw [List.find?_eq_none]
+  intro x hx hk
+  exact h (List.any_eq_true.mpr ⟨x, hx, hk⟩)
+
+/-! ### `dictSet` and `optLookup` -/
+
+theorem dictSet_lookup_self (d : List (Str × OptVal)) (k : Str) (v : OptVal) : optLookup (dictSet d k v) k = some v := by
+  rw [dictSet_eq]
+  split
+  · rename_i h; exact lookup_map_self k v d h
+  · rename_i h
+    simp [optLookup, List.find?_append, find_none_of_any_false k d h]
+
+example : optLookup (dictSet [("a".toList, .flag), ("b".toList, .int 3)] "b".toList (.str ['x'])) "b".toList
+    = some (.str ['x']) := by decide
+
+theorem dictSet_lookup_other (d : List (Str × OptVal)) (k k' : Str) (v : OptVal) (h : k' ≠ k) :
+    optLookup (dictSet d k v) k' = optLookup d k' := by
+  rw [dictSet_eq]
+  split
+  · exact lookup_map_other k k' v h d
+  · have hk : (k == k') = false := by simpa using fun e => h e.symm
+    simp only [optLookup, List.find?_append]
+    cases hd : d.find? (·.1 == k') with
+    | some x => simp
+    | none => simp [hk]
+
+example : optLookup (dictSet [("a".toList, .flag), ("b".toList, .int 3)] "b".toList (.str ['x'])) "a".toList
+    = optLookup [("a".toList, .flag), ("b".toList, .int 3)] "a".toList := by decide
+
+/-! ### `optionsDict` -/
+
+private theorem snoc_ind {α : Type} {P : List α → Prop} (nil : P []) (snoc : ∀ l a, P l → P (l ++ [a])) :
+    ∀ l, P l := by
+  intro l
+  rw [← List.reverse_reverse l]
+  induction l.reverse with
+  | nil => exact nil
+  | cons a r ih => rw [List.reverse_cons]; exact snoc _ _ ih
+
+theorem optionsDict_snoc (opts : List Str) (o : Str) :
+    optionsDict (opts ++ [o]) = dictSet (optionsDict opts) (parseOption o).1 (parseOption o).2 := by
+  simp [optionsDict, List.foldl_append]
+
+/-- the last option with a given key decides its value -/
+theorem optionsDict_last (opts : List Str) (o : Str) :
+    optLookup (optionsDict (opts ++ [o])) (parseOption o).1 = some (parseOption o).2 := by
+  rw [optionsDict_snoc]; exact dictSet_lookup_self _ _ _
+
+example : optLookup (optionsDict (["gf_separator:#".toList, "quiet".toList] ++ ["gf_separator:=".toList]))
+    "gf_separator".toList = some (.str ['=']) := by decide
+
+/-- an option whose key differs from every later key keeps its value -/
+theorem optionsDict_lookup (pre post : List Str) (o : Str) (h : ∀ p ∈ post, (parseOption p).1 ≠ (parseOption o).1) :
+    optLookup (optionsDict (pre ++ [o] ++ post)) (parseOption o).1 = some (parseOption o).2 := by
+  induction post using snoc_ind with
+  | nil => simpa using optionsDict_last pre o
+  | snoc post p ih =>
+    rw [← List.append_assoc, optionsDict_snoc,
+      dictSet_lookup_other _ _ _ _ (fun e => h p (by simp) e.symm)]
+    exact ih (fun q hq => h q (by simp [hq]))
+
+example : optLookup (optionsDict (["quiet".toList] ++ ["brackets_firstid:12".toList] ++ ["gf_separator:=".toList, "quiet".toList]))
+    "brackets_firstid".toList = some (.int 12) := by decide
+
+private theorem dictSet_keys_nodup (d : List (Str × OptVal)) (k : Str) (v : OptVal)
+    (hd : (d.map (·.1)).Nodup) : ((dictSet d k v).map (·.1)).Nodup := by
+  rw [dictSet_eq]
+  split
+  · have : (d.map (ow k v)).map (·.1) = d.map (·.1) := by
+      rw [List.map_map]; exact List.map_congr_left (fun p _ => ow_fst k v p)
+    rw [this]; exact hd
+  · rename_i hn
+    rw [List.map_append, List.nodup_append]
+    refine ⟨hd, by simp, ?_⟩
+    intro a ha b hb
+    simp only [List.map_cons, List.map_nil, List.mem_singleton] at hb
+    subst hb
+    rintro rfl
+    obtain ⟨x, hx, rfl⟩ := List.mem_map.mp ha
+    exact hn (List.any_eq_true.mpr ⟨x, hx, by simp⟩)
+
+/-- keys of the result are exactly the keys given, each once -/
+theorem optionsDict_keys_nodup (opts : List Str) : ((optionsDict opts).map (·.1)).Nodup := by
+  induction opts using snoc_ind with
+  | nil => simp [optionsDict]
+  | snoc opts o ih => rw [optionsDict_snoc]; exact dictSet_keys_nodup _ _ _ ih
+
+example : ((optionsDict ["quiet".toList, "gf_separator:#".toList, "quiet".toList, "gf_separator:=".toList]).map (·.1))
+    = ["quiet".toList, "gf_separator".toList] := by decide
+
+/-- the other half of the doc comment: the keys of the result are exactly the keys given -/
+theorem optionsDict_mem_keys (opts : List Str) (k : Str) :
+    k ∈ (optionsDict opts).map (·.1) ↔ ∃ o ∈ opts, (parseOption o).1 = k := by
+  induction opts using snoc_ind with
+  | nil => simp [optionsDict]
+  | snoc opts o ih =>
+    rw [optionsDict_snoc, dictSet_eq]
+    split
+    · rename_i hany
+      have : ((optionsDict opts).map (ow (parseOption o).1 (parseOption o).2)).map (·.1)
+          = (optionsDict opts).map (·.1) := by
+        rw [List.map_map]; exact List.map_congr_left (fun p _ => ow_fst _ _ p)
+      rw [this, ih]
+      constructor
+      · rintro ⟨q, hq, e⟩; exact ⟨q, by simp [hq], e⟩
+      · rintro ⟨q, hq, e⟩
+        rcases List.mem_append.mp hq with hq | hq
+        · exact ⟨q, hq, e⟩
+        · simp only [List.mem_singleton] at hq
+          subst hq
+          obtain ⟨x, hx, hxk⟩ := List.any_eq_true.mp hany
+          have : (parseOption q).1 ∈ (optionsDict opts).map (·.1) :=
+            List.mem_map.mpr ⟨x, hx, by simpa using hxk⟩
+          rw [e] at this
+          exact ih.mp this
+    · rw [List.map_append, List.mem_append, ih]
+      constructor
+      · rintro (⟨q, hq, e⟩ | hk)
+        · exact ⟨q, by simp [hq], e⟩
+        · simp only [List.map_cons, List.map_nil, List.mem_singleton] at hk
+          exact ⟨o, by simp, hk.symm⟩
+      · rintro ⟨q, hq, e⟩
+        rcases List.mem_append.mp hq with hq | hq
+        · exact Or.inl ⟨q, hq, e⟩
+        · simp only [List.mem_singleton] at hq
+          subst hq
+          exact Or.inr (by simp [e])
+
+/-! ### `key:digits` -/
+
+/-- `key:digits` is read as an integer, `key:text` as a string (key and value without ':' and surrounding whitespace) -/
+theorem parseOption_int (k : Str) (n : Nat) (hk : ':' ∉ k) (hk2 : stripWs (k ++ [':'] ++ natToStr n) = k ++ [':'] ++ natToStr n) :
+    parseOption (k ++ [':'] ++ natToStr n) = (k, .int n) := by
+  have hc : (k ++ [':'] ++ natToStr n).contains ':' = true := by simp
+  have hs : splitOnChar ':' (k ++ [':'] ++ natToStr n) = [k, natToStr n] := by
+    have := TT.Lemmas.GramOut.splitOnChar_one ':' k (natToStr n) hk
+      (TT.Lemmas.GramOut.natToStr_not_mem ':' (by decide) n)
+    simpa using this
+  unfold parseOption
+  rw [if_pos hc, hk2, hs]
+  simp only [TT.Lemmas.GramOut.strToNat_natToStr]
+
+example : parseOption ("brackets_firstid".toList ++ [':'] ++ natToStr 12) = ("brackets_firstid".toList, .int 12) :=
+  parseOption_int _ 12 (by decide) (by decide)
+
+/-- the companion: `key:text` with a non-numeric text is read as a string -/
+theorem parseOption_str (k v : Str) (hk : ':' ∉ k) (hv : ':' ∉ v) (hd : pyIsDigit v = false)
+    (hk2 : stripWs (k ++ [':'] ++ v) = k ++ [':'] ++ v) :
+    parseOption (k ++ [':'] ++ v) = (k, .str v) := by
+  have hc : (k ++ [':'] ++ v).contains ':' = true := by simp
+  have hs : splitOnChar ':' (k ++ [':'] ++ v) = [k, v] := by
+    simpa using TT.Lemmas.GramOut.splitOnChar_one ':' k v hk hv
+  have hn : strToNat? v = none := by simp [strToNat?, hd]
+  unfold parseOption
+  rw [if_pos hc, hk2, hs]
+  simp only [hn]
+
+example : parseOption ("gf_separator".toList ++ [':'] ++ ['=']) = ("gf_separator".toList, .str ['=']) :=
+  parseOption_str _ _ (by decide) (by decide) (by decide) (by decide)
 
 end TT.Props.C03Options
